@@ -126,7 +126,7 @@ def block_edge_sizes(tier, cap=None):
 
 
 # ---- memory representations of the same per-event values ------------------------------------------------
-LAYOUTS = ["bigendian", "fortran2d", "transposed2d", "readonly", "strided", "negative_stride"]
+LAYOUTS = ["bigendian", "fortran2d", "transposed2d", "readonly", "strided", "negative_stride", "column", "masked"]
 
 
 def as_layout(a, kind):
@@ -149,6 +149,12 @@ def as_layout(a, kind):
         return buf[0::2], ident
     if kind == "negative_stride":
         return a[::-1].copy()[::-1], ident
+    if kind == "column":  # astropy.table.Column: what a caller holds after reading a results file (an ndarray subclass)
+        from astropy.table import Column
+
+        return Column(a.copy()), ident
+    if kind == "masked":  # numpy masked array without masked entries
+        return np.ma.MaskedArray(a.copy()), ident
     r = next((d for d in (2, 3, 5, 7) if n % d == 0 and n > d), None)
     if r is None:
         return None
@@ -242,3 +248,17 @@ def harvested_edge_sizes(rel_paths, cap, lo=1000):
             if n <= cap:
                 out.add(n)
     return sorted(out)
+
+
+def unit_forms(values, unit, other_units):
+    """[(label, astropy Quantity holding `values` of unit `unit`, expressed in another unit)]: the SAME physical
+    quantities written in the documented unit and in others (deg / arcmin for angles, m for km, hPa / kPa for Pa). A
+    function handed such an object must either honour the unit (result == result for the plain numbers in the
+    documented unit) or refuse it; silently reading the bare number is the defect."""
+    import astropy.units as u
+
+    q = u.Quantity(np.asarray(values, dtype=np.float64), getattr(u, unit))
+    out = [(unit, q)]
+    for ou in other_units:
+        out.append((ou, q.to(getattr(u, ou))))
+    return out
